@@ -225,6 +225,8 @@ def install(I):
             if r.items is not None:
                 return list(r.items)
             return r
+        if hasattr(v, "py_list"):
+            return v.py_list()
         return list(I.iterate(v))
 
     reg("list", b_list)
@@ -433,6 +435,23 @@ def install(I):
     B["sys.stdout"] = None
     B["copy.deepcopy"] = Builtin("deepcopy", lambda I, a, k: deepcopy_val(a[0], {}))
     B["copy.copy"] = Builtin("copy", lambda I, a, k: shallow_copy(a[0]))
+
+    def pd_concat(I, a, k):
+        from .heap import SymFrame, pd_concat_one_row
+        parts = a[0]
+        if len(parts) == 2 and isinstance(parts[0], SymFrame) and isinstance(parts[1], dict) and "__row__" in parts[1]:
+            return pd_concat_one_row(I, parts[0], parts[1]["__row__"])
+        raise Unsupported("pd.concat shape")
+
+    def pd_dataframe(I, a, k):
+        rows = a[0]
+        if isinstance(rows, list) and len(rows) == 1 and isinstance(rows[0], dict):
+            return {"__row__": rows[0]}
+        raise Unsupported("pd.DataFrame(...) shape")
+
+    for pre in ("pd.", "pandas."):
+        B[pre + "concat"] = Builtin("pd.concat", pd_concat)
+        B[pre + "DataFrame"] = Builtin("pd.DataFrame", pd_dataframe)
     # type names usable as values (isinstance second arg, dtype=...)
     for tn in ("int", "float", "bool", "str", "list", "dict", "tuple", "set"):
         B[tn].typename = tn
